@@ -214,6 +214,7 @@ func main() {
 		out.Solver = "z3"
 	}
 
+	repoRoot = strings.TrimRight(spec.Repo, "/")
 	overlay := map[string][]byte{}
 	for virt, real := range spec.Overlays {
 		b, err := os.ReadFile(real)
